@@ -1674,3 +1674,307 @@ Section Shuffle.
   Theorem ops_shuffle_lang R : nfa_shuffle A B = Ok R -> L_nfa R =L l_shuffle (L_nfa A) (L_nfa B).
   Proof. intro H. apply check_nfa_inv in H. destruct H as [-> _]. apply shuffle_pre_lang. Qed.
 End Shuffle.
+
+(* ------------------------------------------------------------------ *)
+(* _eliminate_lambda *)
+Lemma gpath_app_inv {X} (E : X -> option nat -> X -> Prop) u : forall x v z,
+  gpath E x (u ++ v) z -> exists y, gpath E x u y /\ gpath E y v z.
+Proof.
+  intros x v z H. remember (u ++ v) as w eqn:Ew. revert u v Ew.
+  induction H as [x|x y1 z w He Hp IH|x a y1 z w He Hp IH]; intros u v Ew.
+  - destruct u; [|discriminate]. destruct v; [|discriminate]. exists x. split; apply gp_refl.
+  - destruct (IH u v Ew) as [y [H1 H2]]. exists y. split; [eapply gp_eps; eassumption|exact H2].
+  - destruct u as [|b u]; simpl in Ew.
+    + subst v. exists x. split; [apply gp_refl|]. eapply gp_sym; eassumption.
+    + inversion Ew; subst. destruct (IH u v eq_refl) as [y [H1 H2]]. exists y.
+      split; [eapply gp_sym; eassumption|exact H2].
+Qed.
+
+Lemma gpath_noeps_nil {X} (E : X -> option nat -> X -> Prop) :
+  (forall x y, ~ E x None y) -> forall x y, gpath E x [] y -> x = y.
+Proof.
+  intros Hn x y H. remember (@nil nat) as w eqn:Ew.
+  induction H as [x|x y1 z w He Hp IH|x a y1 z w He Hp IH]; [reflexivity| |discriminate].
+  exfalso. eapply Hn. exact He.
+Qed.
+
+Lemma gpath_noeps_cons {X} (E : X -> option nat -> X -> Prop) :
+  (forall x y, ~ E x None y) -> forall x a w z, gpath E x (a :: w) z ->
+  exists y, E x (Some a) y /\ gpath E y w z.
+Proof.
+  intros Hn x a w z H. apply gpath_cons_inv in H. destruct H as [x1 [x2 [H1 [H2 H3]]]].
+  apply (gpath_noeps_nil E Hn) in H1. subst x1. exists x2. auto.
+Qed.
+
+Section Elim.
+  Variable A : nfa.
+  Hypothesis Hv : valid_nfa A = true.
+
+  Definition EE := xedge (elim_rowof A).
+  Definition efin (y : nat) : Prop := exists g, In g (n_finals A) /\ eps_star A y g.
+
+  Lemma ecl_spec q x : In q (n_states A) -> (In x (ecl A q) <-> eps_star A q x).
+  Proof.
+    intro Hq. destruct (eclosure_spec A Hv q Hq) as [c [Ec [_ Hc]]]. unfold ecl. rewrite Ec. apply Hc.
+  Qed.
+
+  Lemma encl_spec q p : In q (n_states A) -> (In p (encl A q) <-> eps_star A q p /\ p <> q).
+  Proof.
+    intro Hq. unfold encl. rewrite filter_In, negb_true_iff, Nat.eqb_neq, (ecl_spec q p Hq). tauto.
+  Qed.
+
+  Lemma elim_next_spec q s y : In q (n_states A) ->
+    (In y (elim_next A q s) <->
+     exists p t, eps_star A q p /\ p <> q /\ n_edge A p (Some s) t /\ eps_star A t y).
+  Proof.
+    intro Hq. unfold elim_next. rewrite in_flat_map. split.
+    - intros [p [Hp Hy]]. apply in_flat_map in Hy. destruct Hy as [t [Ht Hy]].
+      apply (encl_spec q p Hq) in Hp. destruct Hp as [Hp Hne]. exists p, t. split; [exact Hp|]. split; [exact Hne|].
+      split; [exact Ht|]. apply ecl_spec in Hy; [exact Hy|].
+      eapply (edge_in_states A Hv); [exact Ht]. 
+    - intros [p [t [Hp [Hne [Ht Hy]]]]]. exists p. split; [apply (encl_spec q p Hq); auto|].
+      apply in_flat_map. exists t. split; [exact Ht|]. apply ecl_spec; [|exact Hy].
+      eapply (edge_in_states A Hv). exact Ht.
+  Qed.
+
+  Lemma elim_row_tg q a y : In q (n_states A) ->
+    (In y (xtg (elim_row A q) a) <->
+     exists s, a = Some s /\ (n_edge A q (Some s) y \/ In y (elim_next A q s))).
+  Proof.
+    intro Hq. unfold elim_row. rewrite tab_tg. split.
+    - intros [_ Hy]. destruct a as [s|]; [|destruct Hy]. exists s. split; [reflexivity|].
+      apply in_app_or in Hy. unfold n_edge. rewrite n_targets_arow. exact Hy.
+    - intros [s [-> Hy]]. unfold n_edge in Hy. rewrite n_targets_arow in Hy. split; [|apply in_or_app; exact Hy].
+      apply in_or_app. destruct Hy as [Hy|Hy].
+      + left. apply filter_In. split; [eapply xtg_key; exact Hy|reflexivity].
+      + right. apply in_map. unfold elim_new_syms. apply filter_In. split; [|apply nonempty_In; exists y; exact Hy].
+        apply (elim_next_spec q s y Hq) in Hy. destruct Hy as [p [t [_ [_ [Ht _]]]]].
+        apply (edge_sym_ok A Hv) in Ht. simpl in Ht. apply memb_In. exact Ht.
+  Qed.
+
+  Lemma elim_edge_row q a y : EE q a y <-> In y (xtg (elim_row A q) a).
+  Proof.
+    unfold EE, xedge, elim_rowof. split.
+    - intros [r [Er Hy]]. destruct (is_some (assoc q (n_trans A)) || nonempty (elim_new_syms A q)); [|discriminate].
+      injection Er as <-. exact Hy.
+    - intro Hy. exists (elim_row A q). split; [|exact Hy].
+      replace (is_some (assoc q (n_trans A)) || nonempty (elim_new_syms A q)) with true; [reflexivity|].
+      symmetry. apply orb_true_iff. unfold elim_row in Hy. apply tab_tg in Hy. destruct Hy as [Hk _].
+      apply in_app_or in Hk. destruct Hk as [Hk|Hk].
+      + left. apply filter_In in Hk. destruct Hk as [Hk _]. unfold arow, tr_row, row in Hk.
+        destruct (assoc q (n_trans A)); [reflexivity|destruct Hk].
+      + right. apply in_map_iff in Hk. destruct Hk as [s [_ Hs]]. apply nonempty_In. exists s. exact Hs.
+  Qed.
+
+  Lemma elim_edge q a y : In q (n_states A) ->
+    (EE q a y <-> exists s, a = Some s /\ (n_edge A q (Some s) y \/ In y (elim_next A q s))).
+  Proof. intro Hq. rewrite elim_edge_row. apply elim_row_tg. exact Hq. Qed.
+
+  Lemma elim_no_eps q y : In q (n_states A) -> ~ EE q None y.
+  Proof. intros Hq H. apply (elim_edge q None y Hq) in H. destruct H as [s [E _]]. discriminate. Qed.
+
+  Lemma elim_sound q a y : In q (n_states A) -> EE q a y ->
+    exists s p t, a = Some s /\ eps_star A q p /\ n_edge A p (Some s) t /\ eps_star A t y.
+  Proof.
+    intros Hq H. apply (elim_edge q a y Hq) in H. destruct H as [s [-> [H|H]]].
+    - exists s, q, y. split; [reflexivity|]. split; [apply np_refl|]. split; [exact H|apply np_refl].
+    - apply (elim_next_spec q s y Hq) in H. destruct H as [p [t [Hp [_ [Ht Hy]]]]]. exists s, p, t. auto.
+  Qed.
+
+  Lemma elim_complete q p s t : In q (n_states A) ->
+    eps_star A q p -> n_edge A p (Some s) t -> EE q (Some s) t.
+  Proof.
+    intros Hq Hp Ht. apply (elim_edge q _ t Hq). exists s. split; [reflexivity|].
+    destruct (Nat.eq_dec p q) as [->|Hne]; [left; exact Ht|]. right.
+    apply (elim_next_spec q s t Hq). exists p, t. split; [exact Hp|]. split; [exact Hne|]. split; [exact Ht|apply np_refl].
+  Qed.
+
+  Lemma elim_step_in q a y : In q (n_states A) -> EE q a y -> In y (n_states A).
+  Proof.
+    intros Hq H. destruct (elim_sound q a y Hq H) as [s [p [t [_ [Hp [Ht Hy]]]]]].
+    eapply (eps_star_in_states A Hv); [|exact Hy]. eapply (edge_in_states A Hv). exact Ht.
+  Qed.
+
+  Lemma elim_sym_ok q s y : In q (n_states A) -> EE q (Some s) y -> In s (n_syms A).
+  Proof.
+    intros Hq H. destruct (elim_sound q _ y Hq H) as [s' [p [t [E [_ [Ht _]]]]]]. inversion E; subst s'.
+    apply (edge_sym_ok A Hv) in Ht. simpl in Ht. apply memb_In. exact Ht.
+  Qed.
+
+  (* paths of the eliminated graph against paths of A *)
+  Lemma elim_path_sound q w y : gpath EE q w y -> In q (n_states A) -> nfa_path A q w y /\ In y (n_states A).
+  Proof.
+    intro H. induction H as [x|x y1 z w He Hp IH|x a y1 z w He Hp IH]; intro Hx.
+    - split; [apply np_refl|exact Hx].
+    - exfalso. eapply elim_no_eps; eassumption.
+    - destruct (elim_sound x _ y1 Hx He) as [s [p [t [E [H1 [H2 H3]]]]]]. inversion E; subst s.
+      destruct (IH (elim_step_in _ _ _ Hx He)) as [IH1 IH2]. split; [|exact IH2].
+      change (a :: w) with (([] ++ [a]) ++ w). eapply nfa_path_app; [|exact IH1].
+      eapply nfa_path_app; [exact H1|]. eapply np_sym; [exact H2|exact H3].
+  Qed.
+
+  Lemma elim_path_complete w : forall q f, In q (n_states A) -> nfa_path A q w f ->
+    exists y, gpath EE q w y /\ eps_star A y f.
+  Proof.
+    induction w as [|a w IH]; intros q f Hq H.
+    - exists q. split; [apply gp_refl|exact H].
+    - apply nfa_path_gpath in H. apply gpath_cons_inv in H. destruct H as [p [t [H1 [H2 H3]]]].
+      apply nfa_path_gpath in H1. apply nfa_path_gpath in H3.
+      pose proof (elim_complete q p a t Hq H1 H2) as He.
+      destruct (IH t f (elim_step_in _ _ _ Hq He) H3) as [y [Hy1 Hy2]].
+      exists y. split; [eapply gp_sym; eassumption|exact Hy2].
+  Qed.
+
+  Lemma elim_accepts q w : In q (n_states A) ->
+    ((exists y, gpath EE q w y /\ efin y) <-> (exists f, nfa_path A q w f /\ In f (n_finals A))).
+  Proof.
+    intro Hq. split.
+    - intros [y [Hp [g [Hg Hy]]]]. destruct (elim_path_sound _ _ _ Hp Hq) as [Hp' _].
+      exists g. split; [|exact Hg]. rewrite <- (app_nil_r w). eapply nfa_path_app; [exact Hp'|exact Hy].
+    - intros [f [Hp Hf]]. destruct (elim_path_complete w q f Hq Hp) as [y [Hy1 Hy2]].
+      exists y. split; [exact Hy1|]. exists f. auto.
+  Qed.
+
+  (* the final states *)
+  Definition elim_step (acc : list nat) (q : nat) : list nat :=
+    if existsb (fun p => memb p acc) (encl A q) then q :: acc else acc.
+
+  Lemma elim_fold l : forall acc, incl l (n_states A) ->
+    (forall x, In x acc -> In x (n_states A) /\ efin x) -> incl (n_finals A) acc ->
+    let res := fold_left elim_step l acc in
+    (forall x, In x res -> In x (n_states A) /\ efin x) /\ incl acc res /\
+    (forall q, In q l -> efin q -> In q res).
+  Proof.
+    induction l as [|q l IH]; intros acc Hl Hacc HF; simpl.
+    - split; [exact Hacc|]. split; [apply incl_refl|]. intros q [].
+    - assert (Hq : In q (n_states A)) by (apply Hl; left; reflexivity).
+      assert (Hl' : incl l (n_states A)) by (intros z Hz; apply Hl; right; exact Hz).
+      assert (Hacc' : forall x, In x (elim_step acc q) -> In x (n_states A) /\ efin x).
+      { unfold elim_step. destruct (existsb (fun p => memb p acc) (encl A q)) eqn:Ex; [|exact Hacc].
+        intros x [<-|Hx]; [|apply Hacc; exact Hx]. split; [exact Hq|].
+        apply existsb_exists in Ex. destruct Ex as [p [Hp Hpa]]. apply memb_In in Hpa.
+        apply (encl_spec q p Hq) in Hp. destruct Hp as [Hp _]. destruct (Hacc p Hpa) as [_ [g [Hg Hpg]]].
+        exists g. split; [exact Hg|]. unfold eps_star in *. change (nfa_path A q ([] ++ []) g). eapply nfa_path_app; eassumption. }
+      assert (Hinc : incl acc (elim_step acc q)).
+      { unfold elim_step. destruct (existsb (fun p => memb p acc) (encl A q)); [|apply incl_refl].
+        intros z Hz. right. exact Hz. }
+      assert (HF' : incl (n_finals A) (elim_step acc q)) by (intros z Hz; apply Hinc; apply HF; exact Hz).
+      destruct (IH (elim_step acc q) Hl' Hacc' HF') as [R1 [R2 R3]].
+      split; [exact R1|]. split; [intros z Hz; apply R2; apply Hinc; exact Hz|].
+      intros q' [<-|Hq'] Hef; [|apply R3; assumption]. apply R2.
+      destruct Hef as [g [Hg Hqg]]. destruct (Nat.eq_dec g q) as [->|Hne].
+      + apply Hinc. apply HF. exact Hg.
+      + unfold elim_step. replace (existsb (fun p => memb p acc) (encl A q)) with true; [left; reflexivity|].
+        symmetry. apply existsb_exists. exists g. split; [apply (encl_spec q g Hq); auto|].
+        apply memb_In. apply HF. exact Hg.
+  Qed.
+
+  Lemma elim_finals_spec f : In f (n_states A) -> (In f (elim_finals A) <-> efin f).
+  Proof.
+    intro Hf. destruct (ops_valid_parts A Hv) as (_ & _ & _ & _ & _ & _ & HF).
+    destruct (elim_fold (n_states A) (n_finals A)) as [R1 [R2 R3]].
+    - apply incl_refl.
+    - intros x Hx. split; [apply HF; exact Hx|]. exists x. split; [exact Hx|apply np_refl].
+    - apply incl_refl.
+    - unfold elim_finals. fold elim_step. split.
+      + intro H. apply R1. exact H.
+      + intro H. apply R3; assumption.
+  Qed.
+
+  Lemma elim_succ q y : In y (row_targets (elim_row A q)) <-> exists a, EE q a y.
+  Proof.
+    unfold elim_row. rewrite tab_row_targets. split.
+    - intros [a H]. exists a. apply elim_edge_row. unfold elim_row. apply tab_tg. exact H.
+    - intros [a H]. exists a. apply elim_edge_row in H. unfold elim_row in H. apply tab_tg in H. exact H.
+  Qed.
+
+  Lemma elim_parts_some : exists e, elim_parts A = Ok e.
+  Proof.
+    destruct (ops_valid_parts A Hv) as (_ & _ & _ & _ & Hi & _).
+    unfold elim_parts.
+    destruct (closure Nat.eqb (fun q => row_targets (elim_row A q)) (S (length (n_states A))) [n_init A]) as [reach|] eqn:E; [eauto|].
+    exfalso. revert E. apply (closure_fuel _ _ eqb_nat_ok _ (n_states A)).
+    - intros x y Hx Hy. apply elim_succ in Hy. destruct Hy as [a Hy]. eapply elim_step_in; eassumption.
+    - intros x [<-|[]]. exact Hi.
+    - lia.
+  Qed.
+
+  Variable e : eparts.
+  Hypothesis He : elim_parts A = Ok e.
+
+  Lemma elim_parts_inv :
+    closure Nat.eqb (fun q => row_targets (elim_row A q)) (S (length (n_states A))) [n_init A] = Some (e_states e) /\
+    e_rowof e = elim_rowof A /\
+    e_finals e = filter (fun q => memb q (elim_finals A)) (e_states e).
+  Proof.
+    unfold elim_parts in He.
+    destruct (closure Nat.eqb (fun q => row_targets (elim_row A q)) (S (length (n_states A))) [n_init A]) as [reach|]; [|discriminate].
+    injection He as <-. simpl. auto.
+  Qed.
+
+  Lemma es_init : In (n_init A) (e_states e).
+  Proof.
+    destruct elim_parts_inv as [Hc _]. eapply (closure_complete _ _ eqb_nat_ok); [exact Hc|].
+    apply reach_init. left. reflexivity.
+  Qed.
+
+  Lemma es_NoDup : NoDup (e_states e).
+  Proof. destruct elim_parts_inv as [Hc _]. eapply (closure_NoDup _ _ eqb_nat_ok). exact Hc. Qed.
+
+  Lemma es_in_states q : In q (e_states e) -> In q (n_states A).
+  Proof.
+    destruct (ops_valid_parts A Hv) as (_ & _ & _ & _ & Hi & _).
+    destruct elim_parts_inv as [Hc _]. intro Hq. apply (closure_sound _ _ eqb_nat_ok _ _ _ _ Hc) in Hq.
+    induction Hq as [x Hx|x y Hr IH Hy]; [destruct Hx as [<-|[]]; exact Hi|].
+    apply elim_succ in Hy. destruct Hy as [a Hy]. eapply elim_step_in; eassumption.
+  Qed.
+
+  Lemma es_closed q a y : In q (e_states e) -> EE q a y -> In y (e_states e).
+  Proof.
+    destruct elim_parts_inv as [Hc _]. intros Hq Hy.
+    eapply (closure_complete _ _ eqb_nat_ok); [exact Hc|].
+    eapply reach_step; [eapply (closure_sound _ _ eqb_nat_ok); [exact Hc|exact Hq]|].
+    apply elim_succ. exists a. exact Hy.
+  Qed.
+
+  Lemma es_path_closed q w y : In q (e_states e) -> gpath EE q w y -> In y (e_states e).
+  Proof. apply (gpath_closed EE (fun x => In x (e_states e))). intros x a y'. apply es_closed. Qed.
+
+  Lemma es_finals f : In f (e_finals e) <-> In f (e_states e) /\ efin f.
+  Proof.
+    destruct elim_parts_inv as [_ [_ Hf]]. rewrite Hf, filter_In, memb_In. split.
+    - intros [H1 H2]. split; [exact H1|]. apply elim_finals_spec; [apply es_in_states; exact H1|exact H2].
+    - intros [H1 H2]. split; [exact H1|]. apply elim_finals_spec; [apply es_in_states; exact H1|exact H2].
+  Qed.
+
+  (* rows of the eliminated automaton as used by the quotients *)
+  Lemma erow_tg q a y : In y (xtg (erow e q) a) <-> EE q a y.
+  Proof.
+    destruct elim_parts_inv as [_ [Hr _]]. unfold erow, EE, xedge. rewrite Hr. split.
+    - intro H. destruct (elim_rowof A q) as [r|]; [exists r; auto|unfold xtg in H; simpl in H; destruct H].
+    - intros [r [Er H]]. rewrite Er. exact H.
+  Qed.
+
+  Lemma erow_key_sym q a : In q (n_states A) -> In a (map fst (erow e q)) -> exists s, a = Some s /\ In s (n_syms A).
+  Proof.
+    destruct elim_parts_inv as [_ [Hr _]]. intros Hq Ha. unfold erow in Ha. rewrite Hr in Ha.
+    unfold elim_rowof in Ha. destruct (is_some (assoc q (n_trans A)) || nonempty (elim_new_syms A q)); [|destruct Ha].
+    unfold elim_row in Ha. rewrite tab_keys in Ha. apply in_app_or in Ha. destruct Ha as [Ha|Ha].
+    - apply filter_In in Ha. destruct Ha as [Ha Hs]. destruct a as [s|]; [|discriminate]. exists s. split; [reflexivity|].
+      apply in_map_iff in Ha. destruct Ha as [[a' l] [Ea Hl]]. simpl in Ea. subst a'.
+      destruct (arow_entry A Hv _ _ _ Hl) as [Hok _]. simpl in Hok. apply memb_In. exact Hok.
+    - apply in_map_iff in Ha. destruct Ha as [s [<- Hs]]. exists s. split; [reflexivity|].
+      unfold elim_new_syms in Hs. apply filter_In in Hs. apply Hs.
+  Qed.
+
+  (* the language seen from the initial state *)
+  Lemma elim_lang w :
+    (exists f, gpath EE (n_init A) w f /\ In f (e_finals e)) <-> L_nfa A w.
+  Proof.
+    destruct (ops_valid_parts A Hv) as (_ & _ & _ & _ & Hi & _). unfold L_nfa.
+    rewrite <- (elim_accepts (n_init A) w Hi). split.
+    - intros [f [Hp Hf]]. apply es_finals in Hf. exists f. split; [exact Hp|apply Hf].
+    - intros [f [Hp Hf]]. exists f. split; [exact Hp|]. apply es_finals. split; [|exact Hf].
+      eapply es_path_closed; [apply es_init|exact Hp].
+  Qed.
+End Elim.
